@@ -49,7 +49,7 @@ def main():
     # detection by the static check
     rc, o = sh("%s/check %s --repo %s --no-evidence 2>&1" % (VERIF, prop, wt), VERIF)
     viol = re.findall(r"VIOLATION property=\S+ replay=\S+/([^/\s]+)\.json", o)
-    keys = re.findall(r"\[(C\d\d/[^\]]+)\]\s*$", o, re.M)
+    keys = re.findall(r"\[(C\d\d/[^\]]+)\]\s*$", "\n".join(l for l in o.splitlines() if not l.startswith("KNOWN-FINDING")), re.M)
     out["check_exit"] = rc
     out["detected"] = rc == 1 and bool(viol)
     out["violation_keys"] = keys[:8]
